@@ -154,7 +154,12 @@ class SolverMonitor(taps.Monitor):
         # a matrix that is not exactly symmetric (the library takes asymmetries below single precision for symmetric and does not
         # symmetrise them): eigh reads the lower triangles, the Cholesky path multiplies the full matrix - which symmetric matrix is
         # solved is only defined up to the asymmetry, which enters the bounds as a backward error
-        asym = float(max(np.max(np.abs(A - A.T)) / max(np.max(np.abs(A)), 1e-300), np.max(np.abs(B - B.T)) / max(np.max(np.abs(B)), 1e-300)))
+        # (measured in the metric in which the condition number is taken: entries scaled by the diagonal of G0, since one operator may
+        # be normalised 1e6 times larger than the others and one ulp of its entries is large for the small ones)
+        dsc = np.sqrt(np.abs(np.diag(B)))
+        dsc[dsc == 0] = 1.0
+        osc = np.outer(dsc, dsc)
+        asym = float(max(np.max(np.abs(A - A.T) / osc) / max(np.max(np.abs(A) / osc), 1e-300), np.max(np.abs(B - B.T) / osc)))
         # documented contract: only the lower triangles are processed
         A = np.tril(A) + np.tril(A, -1).T
         B = np.tril(B) + np.tril(B, -1).T
